@@ -39,6 +39,16 @@ def _has(conds, pred):
     return any(pred(strip_casts(e), p) for _d, e, p in conds)
 
 
+def _range_ends(args):
+    """The `end` components of RangeTo / Range aggregates among call arguments."""
+    out = []
+    for a in args:
+        a = strip_casts(a)
+        if a[0] == "agg" and isinstance(a[1], tuple) and len(a[1]) > 1 and "Range" in str(a[1][1]) and a[2]:
+            out.append(a[2][-1])
+    return out
+
+
 def rule_integer_asserts(col, facts):
     """MPT-assert: the assertions of algorithm/algorithm_u128 dominate every unsafe digit writer,
     which receives the buffer re-sliced to `count`."""
@@ -76,6 +86,18 @@ def rule_integer_asserts(col, facts):
             # buffer argument: `&mut buffer[..count]`
             buf = args[3]
             resliced = any(x[1].endswith("IndexMut::index_mut") for x in expr_calls(buf))
+            if not resliced:
+                # the assertion and the re-slice merged into one checked operation: `buffer.get_mut(..count)` matched
+                # against None => panic, possibly in a helper `digits_mut(buffer, count)` - a safe slicing to `..count`
+                # fails (panics / yields None) exactly when count > buffer.len()
+                for x in expr_calls(buf):
+                    if last_seg(x[1]) == "get_mut" and any(G.norm(strip_casts(y)) == G.norm(count) for c_ in [x] for y in _range_ends(x[2][1:])):
+                        resliced = ok_count = True
+                    for h in facts.by_short.get(x[1], []):
+                        if h.crate == f.crate and len(x[2]) == 2 and G.norm(strip_casts(x[2][1])) == G.norm(count):
+                            hb = [last_seg(callee_name(c2)) for _b, c2, _a, _d, _t in h.calls()]
+                            if ("get_mut" in hb or "index_mut" in hb) and not any(c2.get("unsafe") for _b, c2, _a, _d, _t in h.calls()):
+                                resliced = ok_count = True
             col.check(R, key + ":radix", ok_radix, "unchecked digit writer reached without assert!((2..=36).contains(&radix)) on the radix it is given", loc)
             col.check(R, key + ":table", ok_table, "unchecked digit writer reached without assert!(table.len() >= 2*radix^2) on the table it is given", loc)
             col.check(R, key + ":count", ok_count and is_dc, "unchecked digit writer reached without assert!(count <= buffer.len()) for count = value.digit_count(radix)", loc)
@@ -86,7 +108,8 @@ def rule_integer_asserts(col, facts):
     m = 0
     for bb, c, a, d, t in wd.calls():
         cn = callee_name(c)
-        if cn.endswith(("slice::get_unchecked", "slice::get_unchecked_mut")):
+        # (the unchecked stores themselves, or unsafe helpers of this crate that hold them: `put_pair`, `put_digit`)
+        if cn.endswith(("slice::get_unchecked", "slice::get_unchecked_mut")) or (c.get("unsafe") and any(h.crate == wd.crate for h in facts.by_short.get(cn, []))):
             m += 1
             conds = path_conditions(wd, bb)
             ok1 = _has(conds, lambda e, p: e[0] == "call" and e[1].endswith("RangeInclusive::contains") and p is True)
